@@ -2,7 +2,87 @@
 import json, os, random, re, time
 from common import *
 
-ROWS = [(i, "v%d" % i) for i in range(1, 25)]
+NROWS = 24
+ROWS = [(i, None if i % 3 == 0 else i * 10, None if i % 4 == 0 else "v%d" % i) for i in range(1, NROWS + 1)]
+VALS = ", ".join("(%d, %s, %s)" % (a, "null" if b is None else b, "null" if c is None else "'%s'" % c) for a, b, c in ROWS)
+WANT_T = sorted(json.dumps([a, b, c]) for a, b, c in ROWS)
+WANT_R = sorted(json.dumps([x]) for x in (2, 4, 515, 7, 9))
+TABLE_OF = {"0": "t", "1": "u", "2": "r"}
+READ = {"t": "select a, b, c from t", "r": "select a from r"}
+
+
+def _varint(b, i):
+    x = sh = 0
+    while True:
+        c = b[i]; i += 1
+        x |= (c & 0x7f) << sh; sh += 7
+        if c < 0x80:
+            return x, i
+
+
+def parse_index(b):
+    """.idx = length-delimited BlockIndex messages + 24-byte footer (magic u32, count u64, cksum type i32, cksum u64)."""
+    n = int.from_bytes(b[-20:-12], "big")
+    i, out = 0, []
+    for _ in range(n):
+        ln, i = _varint(b, i)
+        end = i + ln
+        f = {}
+        while i < end:
+            tag, i = _varint(b, i)
+            wt = tag & 7
+            if wt == 0:
+                val, i = _varint(b, i)
+            elif wt == 2:
+                l2, i = _varint(b, i); val = None; i += l2
+            elif wt == 5:
+                val = None; i += 4
+            elif wt == 1:
+                val = None; i += 8
+            else:
+                raise ToolError("index entry: unexpected wire type")
+            f[tag >> 3] = val
+        out.append((f.get(2, 0), f.get(3, 0)))
+    return out
+
+
+def column_layout(setup):
+    """Dry run: block boundaries and block types of every column file, read from the real .idx / .col files."""
+    case = {"id": "layout", "engine": "disk", "opts": {"block": 64, "checksum": True},
+            "steps": setup + [{"op": "state"}]}
+    out = run_sharded("sql", [case], shards=1, tag="c18-layout", timeout=300)[0]
+    files = [f for f in out["res"][-1]["files"] if f.endswith(".col")]
+    case["steps"] = setup + [{"op": "readfile", "name": "db/" + f[:-4] + e} for f in files for e in (".idx", ".col")]
+    out = run_sharded("sql", [case], shards=1, tag="c18-layout", timeout=300)[0]
+    res = out["res"][len(setup):]
+    layout = {}
+    for k, f in enumerate(files):
+        idx, col = bytes(res[2 * k]["bytes"]), bytes(res[2 * k + 1]["bytes"])
+        blocks = []
+        for off, ln in parse_index(idx):
+            ty = int.from_bytes(col[off + ln - 16: off + ln - 12], "big")
+            blocks.append((off, ln, ty))
+        if not blocks or blocks[-1][0] + blocks[-1][1] != len(col):
+            raise ToolError(f"cannot parse the layout of {f}: {blocks} vs {len(col)} bytes")
+        layout[f] = blocks
+    return layout
+
+
+def damage(rnd, col, blocks, which):
+    """One alteration of block `which` (0 = first, -1 = last) of a column file."""
+    off, ln, ty = blocks[which]
+    end = off + ln
+    k = rnd.random()
+    if which == -1 and k < 0.15:
+        return {"op": "corrupt", "path": col, "truncate": -rnd.choice([1, 3, 9, 17])}
+    if k < 0.5:      # payload
+        return {"op": "corrupt", "path": col, "pos": rnd.randrange(off, end - 16), "xor": rnd.choice([1, 4, 128, 255])}
+    if k < 0.75:     # block type word: another valid type, or garbage in the high bytes
+        if rnd.random() < 0.8:
+            return {"op": "corrupt", "path": col, "pos": end - 13, "xor": ty ^ rnd.choice([x for x in range(19) if x != ty])}
+        return {"op": "corrupt", "path": col, "pos": rnd.randrange(end - 16, end - 13), "xor": rnd.choice([1, 64])}
+    # checksum type / checksum
+    return {"op": "corrupt", "path": col, "pos": rnd.randrange(end - 12, end), "xor": rnd.choice([1, 2, 64, 255])}
 
 
 def check_c18(args):
@@ -27,49 +107,76 @@ def check_c18(args):
     seqs = [s for s in seqs if any(e["a"].startswith("corrupt") for e in s)]
     rnd.shuffle(seqs)
     seqs = seqs[: (2000 if big else 150)]
-    vals = ", ".join(f"({a}, '{b}')" for a, b in ROWS)
-    want_rows = sorted([a] for a, _ in ROWS)
+    setup = [{"sql": "create table t(a int not null, b int, c varchar)"}, {"sql": "create table u(a int)"},
+             {"sql": "create table r(a int not null)"},
+             {"sql": f"insert into t values {VALS}"}, {"sql": "insert into u values (1), (2), (3)"},
+             {"sql": "insert into r values (2), (4), (515), (7), (9)"},
+             {"op": "reopen"}]          # start with a cold cache
+    NS = len(setup)
+    layout = column_layout(setup)
+    tcols = sorted(k for k in layout if TABLE_OF.get(k.split("_")[0]) == "t")
     runs, metas = [], []
-    for i, sq in enumerate(seqs):
-        steps = [{"sql": "create table t(a int, b varchar)"}, {"sql": "create table u(a int)"},
-                 {"sql": f"insert into t values {vals}"}, {"sql": "insert into u values (1), (2), (3)"},
-                 {"op": "reopen"}]          # start with a cold cache
-        plan = []
+
+    def add(steps, plan, table):
+        runs.append({"id": str(len(runs)), "engine": "disk", "opts": {"block": 64, "checksum": True},
+                     "steps": setup + steps, "table": table})
+        metas.append(plan)
+
+    for sq in seqs:
+        steps, plan = [], []
+        col = rnd.choice(tcols)
         for e in sq:
             if e["a"] == "corrupt":
-                if e["b"] == 1:
-                    st = {"op": "corrupt", "path": "0_0/0.col", "pos": rnd.choice([0, 1, 3, 7]), "xor": rnd.choice([1, 4, 128, 255])}
-                else:
-                    k = rnd.random()
-                    if k < 0.2:
-                        st = {"op": "corrupt", "path": "0_0/0.col", "truncate": -rnd.choice([1, 3, 9, 17])}
-                    else:
-                        st = {"op": "corrupt", "path": "0_0/0.col", "pos": -rnd.choice([1, 2, 8, 9, 12, 13, 16, 17, 20, 25]),
-                              "xor": rnd.choice([1, 2, 64, 255])}
+                st = damage(rnd, col, layout[col], 0 if e["b"] == 1 else -1)
             elif e["a"] == "corrupt_idx":
-                k = rnd.random()
-                st = {"op": "corrupt", "path": "0_0/0.idx", "truncate": -rnd.choice([1, 4])} if k < 0.25 else \
-                    {"op": "corrupt", "path": "0_0/0.idx", "pos": rnd.choice([0, 2, 5, -1, -3, -9]), "xor": rnd.choice([1, 16, 255])}
+                idx = col[:-4] + ".idx"
+                st = {"op": "corrupt", "path": idx, "truncate": -rnd.choice([1, 4])} if rnd.random() < 0.25 else \
+                    {"op": "corrupt", "path": idx, "pos": rnd.choice([0, 2, 5, -1, -3, -9]), "xor": rnd.choice([1, 16, 255])}
             elif e["a"] == "read":
-                st = {"sql": "select a from t"}
+                st = {"sql": READ["t"]}
             elif e["a"] == "read_other":
                 st = {"sql": "select a from u"}
             else:
                 st = {"op": "reopen"}
             steps.append(st)
             plan.append(e)
-        runs.append({"id": str(i), "engine": "disk", "opts": {"block": 64, "checksum": True}, "steps": steps})
-        metas.append(plan)
+        add(steps, plan, "t")
+    # ---- systematic sweep of the block footer with the model's sequence <corrupt, read, read>: every other
+    # value of the block-type word (always), bits of its high bytes, of the checksum-type word and of the
+    # checksum (sampled in the quick tier), for the first and the last block of every column of t and r
+    sweep_type, sweep_rest = [], []
+    for col, blocks in sorted(layout.items()):
+        tab = TABLE_OF.get(col.split("_")[0])
+        if tab not in READ:
+            continue
+        for bi in sorted({0, len(blocks) - 1}):
+            off, ln, ty = blocks[bi]
+            end = off + ln
+            for t2 in range(0, 20):
+                if t2 != ty:
+                    sweep_type.append((tab, {"op": "corrupt", "path": col, "pos": end - 13, "xor": ty ^ t2}))
+            for pos in range(end - 16, end - 13):
+                sweep_rest.append((tab, {"op": "corrupt", "path": col, "pos": pos, "xor": 1}))
+            for pos in range(end - 12, end):
+                for m in (1, 2, 16, 128):
+                    sweep_rest.append((tab, {"op": "corrupt", "path": col, "pos": pos, "xor": m}))
+    if not big:
+        rnd.shuffle(sweep_rest)
+        sweep_rest = sweep_rest[:60]
+    for tab, st in sweep_type + sweep_rest:
+        rd = {"sql": READ[tab]}
+        add([st, rd, rd], [{"a": "corrupt", "b": 0}, {"a": "read", "want": "any"}, {"a": "read", "want": "any"}], tab)
     outs = run_sharded("sql", runs, tag="c18", timeout=3000, case_timeout=60)
     reads, nontriv, drift, boot_fail = 0, set(), 0, 0
     for run, plan, out in zip(runs, metas, outs):
         if out.get("hang") or "fatal" in out:
             v.violation({"case": run, "result": out}, f"corruption sequence hangs or the database cannot be created: {out}")
             continue
-        res = out["res"][5:]
-        info = {"sequence": [s for s in run["steps"][5:]], "spec_sequence": plan}
+        res = out["res"][NS:]
+        info = {"sequence": [s for s in run["steps"][NS:]], "spec_sequence": plan}
+        want_rows = WANT_T if run["table"] == "t" else WANT_R
         dead = False
-        for e, st, r in zip(plan, run["steps"][5:], res):
+        for e, st, r in zip(plan, run["steps"][NS:], res):
             if e["a"] == "reopen":
                 if not r["ok"]:
                     dead = True
@@ -83,7 +190,8 @@ def check_c18(args):
             if e["a"] == "read":
                 reads += 1
                 if r["ok"]:
-                    got = sorted([c[1] for c in row] for row in r["rows"])
+                    got = sorted(json.dumps([None if c[0] == "n" else ("".join(map(chr, c[1])) if c[0] == "s" else c[1])
+                                             for c in row]) for row in r["rows"])
                     if got != want_rows:
                         v.violation(dict(info, returned=r["rows"][:30]),
                                     f"altered data returned after {[s.get('op', 'read') + ':' + str(s.get('path', '')) for s in run['steps'][5:]]}: {got[:12]}")
@@ -95,7 +203,7 @@ def check_c18(args):
                 else:
                     outcome = "err"
                     nontriv.add(json.dumps(info["sequence"]))
-                if not dead and outcome != e["want"]:
+                if not dead and e["want"] != "any" and outcome != e["want"]:
                     drift += 1
             elif e["a"] == "read_other":
                 if dead:
